@@ -51,7 +51,14 @@ fn text_bearing(k: &OpKind) -> bool {
   }
 }
 
-fn gen_observer(rng: &mut Rng) -> OpKind {
+fn gen_observer(rng: &mut Rng, text: &str, ascii: bool, prev: &[ReplCall]) -> OpKind {
+  if rng.chance(60) {
+    // clone, edit the clone, observe the clone: the original must not notice
+    return OpKind::CloneEditObserve {
+      call: gen_call(rng, text, ascii, prev),
+      then: Box::new(if rng.chance(500) { OpKind::Source } else { OpKind::Hash }),
+    };
+  }
   let base = |rng: &mut Rng| match rng.below(12) {
     0..=2 => OpKind::Source,
     3 => OpKind::Rope,
@@ -328,7 +335,7 @@ impl C05 {
         _ => 3,
       };
       let threads = (0..n_threads)
-        .map(|_| (0..1 + rng.usize_below(3)).map(|_| gen_observer(&mut rng)).collect())
+        .map(|_| (0..1 + rng.usize_below(3)).map(|_| gen_observer(&mut rng, &text, ascii, &calls_so_far)).collect())
         .collect();
       phases.push(Phase {
         fork: ph > 0 && rng.chance(200),
